@@ -50,7 +50,7 @@ def op_histogram(cases):
 class ContCheck(vlib.PropertyCheck):
     family = 'cont'
     harness = 'cont.c'
-    case_timeout = 300
+    case_timeout = 1500        # one harness run covers the whole case file (faults are handled inside the harness)
     # automatic variables that are read before being written get a non-zero, non-pointer pattern
     # instead of whatever the stack held: "stores an uninitialised pointer" becomes a deterministic fault
     impl_kwargs = dict(cflags=['-ftrivial-auto-var-init=pattern'])
@@ -73,7 +73,9 @@ class ContCheck(vlib.PropertyCheck):
             ctx['cov']['operation_histogram'] = op_histogram(cases)
             ctx['cov']['histories'] = len(cases)
             ctx['cov']['operations'] = sum(ctx['cov']['operation_histogram'].values())
-            ctx['cov']['exhaustive'] = getattr(self, 'exhaustive_note', None)
+            # the case set is random histories PLUS a bounded-exhaustive stratum, so it is not exhaustive as a whole
+            ctx['cov']['exhaustive'] = False
+            ctx['cov']['exhaustive_stratum'] = getattr(self, 'exhaustive_note', None)
         except OSError:
             pass
         return []
@@ -331,7 +333,7 @@ def map_history(rng, maxops=25, keys=KEYS4):
         elif r < 0.88:
             ops.append('has_value:' + rng.choice(VALS))
         else:
-            ops.append(rng.choice(['count', 'get_keys', 'get_values', 'get_pairs', 'iterate']))
+            ops.append(rng.choice(['count', 'get_keys', 'get_values', 'get_pairs', 'iterate', 'newpair']))
     return ops[:max(nops, 1)]
 
 
